@@ -752,9 +752,26 @@ func c10Exec(raw json.RawMessage) (*Case, error) {
 	if hung {
 		cs.Class += "/hang"
 	}
+	if !fsMonotone(l) {
+		cs.Class += "/backwards" // stored numbers go backwards: exempt from c10_suffix_y1, compared by the correspondence
+	}
 	cs.Nontrivial = len(obs.Calls) > 0
 	cs.Key = string(raw)
 	return cs, nil
+}
+
+// fsMonotone: the stored numbers never go backwards over the concatenation of the bundle files (mono_layout)
+func fsMonotone(l *fsLayout) bool {
+	var last uint64
+	for _, f := range l.Files {
+		for _, b := range f {
+			if b.Num < last {
+				return false
+			}
+			last = b.Num
+		}
+	}
+	return true
 }
 
 func minInt(a, b int) int {
